@@ -147,13 +147,16 @@ pub(crate) fn for_each_pixel_rect_untyped(
 
     let image_bytes_per_pixel = image.color().bytes_per_pixel() as usize;
 
+    // allocate before touching the reader, so that a memory limit error
+    // leaves the position of the reader unchanged
+    let mut row: Box<[u8]> = context.alloc(image.width() as usize * size_of_in)?;
+
     // jump to the first pixel
     util::io_skip_exact(
         r,
         encoded_bytes_per_row * offset.y as u64 + encoded_bytes_before_rect,
     )?;
 
-    let mut row: Box<[u8]> = context.alloc(image.width() as usize * size_of_in)?;
     let mut conversion_buffer = ChannelConversionBuffer::new(native_color, image.color().channels);
     for y in 0..image.height() {
         if y > 0 {
@@ -642,17 +645,20 @@ pub(crate) fn for_each_block_rect_untyped<
             - skip_block_lines_before
             - block_lines_to_read;
 
+        // allocate before touching the reader, so that a memory limit error
+        // leaves the position of the reader unchanged
+        let mut line_buffer = UntypedLineBuffer::new(
+            blocks_per_line as usize * bytes_per_block,
+            block_lines_to_read,
+            &mut context,
+        )?;
+
         // jump to the first line of blocks
         util::io_skip_exact(
             r,
             blocks_per_line as u64 * skip_block_lines_before as u64 * bytes_per_block as u64,
         )?;
 
-        let mut line_buffer = UntypedLineBuffer::new(
-            blocks_per_line as usize * bytes_per_block,
-            block_lines_to_read,
-            &mut context,
-        )?;
         let mut conversion_buffer =
             ChannelConversionBuffer::new(native_color, image.color.channels);
 
@@ -1139,11 +1145,6 @@ pub(crate) fn for_each_bi_planar(
     let size = context.surface_size;
     debug_assert_eq!(image.color().precision, native_color.precision);
 
-    // Step 1: Read the entirety of plane 1
-    let plain1_bytes_per_line = size.width as usize * info.plane1_element_size as usize;
-    let plane1 = context.alloc_read(plain1_bytes_per_line as u64 * size.height as u64, r)?;
-
-    // Step 2: Go through plane 2
     let sub_sampling_x = info.sub_sampling.0 as u32;
     let sub_sampling_y = info.sub_sampling.1 as u32;
 
@@ -1151,7 +1152,15 @@ pub(crate) fn for_each_bi_planar(
     let uv_lines = size.height.div_ceil(sub_sampling_y);
     let uv_bytes_per_line = uv_width as usize * info.plane2_element_size as usize;
 
+    // allocate the line buffer for plane 2 before touching the reader, so that
+    // a memory limit error leaves the position of the reader unchanged
     let mut line_buffer = UntypedLineBuffer::new(uv_bytes_per_line, uv_lines, &mut context)?;
+
+    // Step 1: Read the entirety of plane 1
+    let plain1_bytes_per_line = size.width as usize * info.plane1_element_size as usize;
+    let plane1 = context.alloc_read(plain1_bytes_per_line as u64 * size.height as u64, r)?;
+
+    // Step 2: Go through plane 2
     let mut conversion_buffer = ChannelConversionBuffer::new(native_color, image.color().channels);
 
     let mut y: usize = 0;
@@ -1200,16 +1209,6 @@ pub(crate) fn for_each_bi_planar_rect(
 
     debug_assert_eq!(image.color().precision, native_color.precision);
 
-    // Step 1: Read the entirety of plane 1
-    let plain1_bytes_per_line = surface_size.width as usize * info.plane1_element_size as usize;
-    util::io_skip_exact(r, plain1_bytes_per_line as u64 * offset.y as u64)?;
-    let plane1 = context.alloc_read(plain1_bytes_per_line as u64 * image_height as u64, r)?;
-    util::io_skip_exact(
-        r,
-        plain1_bytes_per_line as u64 * (surface_size.height - offset.y - image_height) as u64,
-    )?;
-
-    // Step 2: Go through plane 2
     let sub_sampling_x = info.sub_sampling.0 as u32;
     let sub_sampling_y = info.sub_sampling.1 as u32;
 
@@ -1220,9 +1219,26 @@ pub(crate) fn for_each_bi_planar_rect(
     let uv_lines = surface_size.height.div_ceil(sub_sampling_y) - uv_before - uv_after;
     let uv_bytes_per_line = uv_width as usize * info.plane2_element_size as usize;
 
+    // allocate all buffers before touching the reader, so that a memory limit
+    // error leaves the position of the reader unchanged
+    let plain1_bytes_per_line = surface_size.width as usize * info.plane1_element_size as usize;
+    let plane1_len = plain1_bytes_per_line
+        .checked_mul(image_height as usize)
+        .ok_or(DecodingError::MemoryLimitExceeded)?;
+    let mut plane1: Box<[u8]> = context.alloc(plane1_len)?;
+    let mut line_buffer = UntypedLineBuffer::new(uv_bytes_per_line, uv_lines, &mut context)?;
+
+    // Step 1: Read the rows of plane 1 that contain the rect
+    util::io_skip_exact(r, plain1_bytes_per_line as u64 * offset.y as u64)?;
+    r.read_exact(&mut plane1)?;
+    util::io_skip_exact(
+        r,
+        plain1_bytes_per_line as u64 * (surface_size.height - offset.y - image_height) as u64,
+    )?;
+
+    // Step 2: Go through plane 2
     util::io_skip_exact(r, uv_before as u64 * uv_bytes_per_line as u64)?;
 
-    let mut line_buffer = UntypedLineBuffer::new(uv_bytes_per_line, uv_lines, &mut context)?;
     let mut conversion_buffer = ChannelConversionBuffer::new(native_color, image.color().channels);
 
     let mut y: usize = uv_before as usize * sub_sampling_y as usize;
